@@ -12,13 +12,16 @@ import glob
 sys.path.insert(0, os.path.join(VERIF, "lib"))
 sys.path.insert(0, VERIF)
 
+# checks whose machinery exists but is not finished / reviewed yet are not claimed
+UNFINISHED = {"C09", "C10"}
+
 # Every checks/cNN.py that defines MANIFEST = {"level","technique","text","note","ref"} is claimed.
 CLAIMED = {}
 for f in sorted(glob.glob(os.path.join(VERIF, "checks", "c[0-9]*.py"))):
     name = os.path.basename(f)[:-3]
     mod = importlib.import_module("checks." + name)
     m = getattr(mod, "MANIFEST", None)
-    if m:
+    if m and name.upper() not in UNFINISHED:
         CLAIMED[name.upper()] = (m["level"], m["technique"], m["text"], m["note"], m["ref"])
 
 PENDING_REASON = "check not built yet in this round (planned, see DESIGN.md section 6); not claimed until its machinery exists"
